@@ -2,6 +2,7 @@ package main
 
 import (
 	"encoding/json"
+	"golang.org/x/tools/go/ssa"
 	"os/exec"
 	"flag"
 	"fmt"
@@ -24,6 +25,9 @@ type PropSpec struct {
 	Assumptions []string   `json:"assumptions"`
 	Explanation string     `json:"explanation"`
 	ThoroughMutants []string `json:"thorough_mutants"`
+	SweepRoots   []string `json:"sweep_roots"`   // zero-annotation safety sweep: every function in the call trees of these roots is a unit
+	SweepExclude []string `json:"sweep_exclude"` // substrings of function names left out (with the reason in assumptions)
+	SweepOnly    []string `json:"sweep_only"`    // obligation-name substrings kept for swept units (default: safety, frame, requires, invariant, variant, lock)
 }
 
 type UnitSpec struct {
@@ -33,6 +37,7 @@ type UnitSpec struct {
 	Exclude       []string `json:"exclude"`  // substrings of obligation names not counted for this property
 	Only          []string `json:"only"`     // if set: only obligations containing one of these
 	UnreachableOK []string `json:"unreachable_ok"`
+	swept         bool
 }
 
 type LemmaSpec struct {
@@ -164,6 +169,51 @@ func runCheck(id, tier, repo, keep string, writeEvidence bool) int {
 	havocUsed := map[string]bool{}
 	inlinedUsed := map[string]bool{}
 	notes := map[string]bool{}
+	// expand the sweep
+	if len(ps.SweepRoots) > 0 {
+		tree := map[*ssa.Function]bool{}
+		for _, r := range ps.SweepRoots {
+			fn, _, err := eng.LookupFunc(r)
+			if err != nil {
+				engErrs = append(engErrs, err.Error())
+				continue
+			}
+			eng.callTree(fn, tree)
+		}
+		listed := map[string]bool{}
+		for _, us := range ps.Units {
+			if fn, _, err := eng.LookupFunc(us.Func); err == nil {
+				listed[fn.String()] = true
+			}
+		}
+		var names []string
+		byName := map[string]*ssa.Function{}
+		for fn := range tree {
+			if listed[fn.String()] || fn.Synthetic != "" {
+				continue
+			}
+			if fn.Parent() != nil && len(fn.FreeVars) > 0 {
+				continue // closures over locals are executed in the context of their parent (inlined / at sort sites)
+			}
+			skip := false
+			for _, ex := range ps.SweepExclude {
+				if strings.Contains(fn.String(), ex) {
+					skip = true
+				}
+			}
+			if skip {
+				continue
+			}
+			pk, key := fnKey(fn)
+			n := pk + "::" + key
+			names = append(names, n)
+			byName[n] = fn
+		}
+		sort.Strings(names)
+		for _, n := range names {
+			ps.Units = append(ps.Units, UnitSpec{Func: n, swept: true})
+		}
+	}
 	for _, us := range ps.Units {
 		fn, full, err := eng.LookupFunc(us.Func)
 		if err != nil {
@@ -197,6 +247,9 @@ func runCheck(id, tier, repo, keep string, writeEvidence bool) int {
 			if !oblSelected(o, id, us) {
 				continue
 			}
+			if us.swept && (o.Kind == "ensures" || o.ExpectSat) {
+				continue // swept units contribute their safety obligations; their functional clauses belong to other properties
+			}
 			if o.ExpectSat {
 				skip := false
 				for _, uo := range us.UnreachableOK {
@@ -211,7 +264,7 @@ func runCheck(id, tier, repo, keep string, writeEvidence bool) int {
 			all = append(all, o)
 			n++
 		}
-		if n == 0 && len(u.errs) == 0 {
+		if n == 0 && len(u.errs) == 0 && !us.swept {
 			engErrs = append(engErrs, fmt.Sprintf("%s: no obligations generated", u.Name))
 		}
 	}
